@@ -68,4 +68,387 @@ theorem validSubPath_iff (s : Str) : validSubPath s = true ↔ ValidSub s := by
     | some n => exact (normalizeSubpath_some s n hn).2
   · intro h; rw [normalizeSubpath_of_validSub s h]; rfl
 
+/-! ## `indexOf` (`strings.Index`) -/
+
+theorem indexOf_nil_pat (s : Str) : indexOf [] s = some 0 := by
+  cases s <;> simp [indexOf]
+
+theorem indexOf_cons (p : Str) (x : Char) (xs : Str) :
+    indexOf p (x :: xs) = if p.isPrefixOf (x :: xs) then some 0 else (indexOf p xs).map (· + 1) := rfl
+
+theorem indexOf_bound (p : Str) : ∀ (s : Str) (i : Nat), indexOf p s = some i → i + p.length ≤ s.length := by
+  intro s
+  induction s with
+  | nil =>
+    intro i h
+    unfold indexOf at h
+    split at h
+    · rename_i hp; cases h; simp [hp]
+    · cases h
+  | cons x xs ih =>
+    intro i h
+    rw [indexOf_cons] at h
+    split at h
+    · rename_i hp
+      cases h
+      have := (List.isPrefixOf_iff_prefix.mp hp).length_le
+      simpa using this
+    · cases hj : indexOf p xs with
+      | none => rw [hj] at h; cases h
+      | some j =>
+        rw [hj] at h
+        cases h
+        have := ih j hj
+        simp only [List.length_cons]; omega
+
+theorem indexOf_append_left (p : Str) (b : Str) : ∀ (a : Str) (i : Nat),
+    indexOf p a = some i → indexOf p (a ++ b) = some i := by
+  intro a
+  induction a with
+  | nil =>
+    intro i h
+    unfold indexOf at h
+    split at h
+    · rename_i hp; cases h; subst hp; exact indexOf_nil_pat _
+    · cases h
+  | cons x xs ih =>
+    intro i h
+    rw [indexOf_cons] at h
+    rw [List.cons_append, indexOf_cons]
+    split at h
+    · rename_i hp
+      cases h
+      have h1 : p <+: x :: xs := List.isPrefixOf_iff_prefix.mp hp
+      have h2 : p <+: x :: (xs ++ b) := h1.trans (List.prefix_append (x :: xs) b)
+      simp [List.isPrefixOf_iff_prefix.mpr h2]
+    · rename_i hp
+      cases hj : indexOf p xs with
+      | none => rw [hj] at h; cases h
+      | some j =>
+        rw [hj] at h
+        cases h
+        have hb := indexOf_bound p xs j hj
+        have hnp : p.isPrefixOf (x :: (xs ++ b)) = false := by
+          apply Bool.eq_false_iff.mpr
+          intro hq
+          have h2 : p <+: (x :: xs) ++ b := List.isPrefixOf_iff_prefix.mp hq
+          have h3 : p <+: x :: xs :=
+            List.prefix_of_prefix_length_le h2 (List.prefix_append _ _) (by simp only [List.length_cons]; omega)
+          exact hp (List.isPrefixOf_iff_prefix.mpr h3)
+        simp [hnp, ih j hj]
+
+theorem indexOf_split (p : Str) : ∀ (s : Str) (i : Nat), indexOf p s = some i →
+    ∃ a r, s = a ++ p ++ r ∧ a.length = i := by
+  intro s
+  induction s with
+  | nil =>
+    intro i h
+    unfold indexOf at h
+    split at h
+    · rename_i hp; cases h; exact ⟨[], [], by simp [hp], rfl⟩
+    · cases h
+  | cons x xs ih =>
+    intro i h
+    rw [indexOf_cons] at h
+    split at h
+    · rename_i hp
+      cases h
+      obtain ⟨r, hr⟩ := List.isPrefixOf_iff_prefix.mp hp
+      exact ⟨[], r, by simp [hr], rfl⟩
+    · cases hj : indexOf p xs with
+      | none => rw [hj] at h; cases h
+      | some j =>
+        rw [hj] at h
+        cases h
+        obtain ⟨a, r, e, hl⟩ := ih j hj
+        exact ⟨x :: a, r, by simp [e], by simp [hl]⟩
+
+theorem indexOf_occ (p r : Str) : ∀ a : Str, ∃ i, indexOf p (a ++ p ++ r) = some i ∧ i ≤ a.length := by
+  intro a
+  induction a with
+  | nil =>
+    refine ⟨0, ?_, Nat.le_refl _⟩
+    cases hp : p with
+    | nil => exact indexOf_nil_pat _
+    | cons c p' =>
+      simp only [List.nil_append, List.cons_append, indexOf_cons]
+      have : (c :: p').isPrefixOf (c :: (p' ++ r)) = true :=
+        List.isPrefixOf_iff_prefix.mpr (List.prefix_append (c :: p') r)
+      simp [this]
+  | cons x xs ih =>
+    obtain ⟨j, hj, hle⟩ := ih
+    simp only [List.cons_append, indexOf_cons]
+    split
+    · exact ⟨0, rfl, Nat.zero_le _⟩
+    · refine ⟨j + 1, ?_, by simp [hle]⟩
+      simp only [List.append_assoc] at hj
+      simp [hj]
+
+theorem indexOf_none_append (p a b : Str) (h : indexOf p (a ++ b) = none) : indexOf p a = none := by
+  cases ha : indexOf p a with
+  | none => rfl
+  | some i => rw [indexOf_append_left p b a i ha] at h; cases h
+
+theorem indexOf_of_append (p a b : Str) (i : Nat) (h : indexOf p (a ++ b) = some i)
+    (hle : i + p.length ≤ a.length) : indexOf p a = some i := by
+  cases ha : indexOf p a with
+  | some j => rw [indexOf_append_left p b a j ha] at h; exact h
+  | none =>
+    exfalso
+    obtain ⟨a0, r, e, hl⟩ := indexOf_split p _ i h
+    have h1 : a0 ++ p <+: a ++ b := ⟨r, by rw [e]⟩
+    have h2 : a0 ++ p <+: a :=
+      List.prefix_of_prefix_length_le h1 (List.prefix_append a b) (by simp [hl]; omega)
+    obtain ⟨r', hr'⟩ := h2
+    obtain ⟨k, hk, _⟩ := indexOf_occ p r' a0
+    rw [hr', ha] at hk
+    cases hk
+
+
+/-- the occurrence found is the first: nothing is found in the part before its last character -/
+theorem indexOf_take_none (p s : Str) (i : Nat) (hp : p ≠ []) (h : indexOf p s = some i) :
+    indexOf p (s.take (i + p.length - 1)) = none := by
+  cases ht : indexOf p (s.take (i + p.length - 1)) with
+  | none => rfl
+  | some j =>
+    exfalso
+    have hb := indexOf_bound p _ j ht
+    have h2 := indexOf_append_left p (s.drop (i + p.length - 1)) _ j ht
+    rw [List.take_append_drop, h] at h2
+    cases h2
+    have : p.length > 0 := List.length_pos_iff.mpr hp
+    simp only [List.length_take] at hb
+    omega
+
+theorem indexOf_first (p a : Str) (hp : p ≠ []) (h : indexOf p (a ++ p.dropLast) = none) :
+    indexOf p (a ++ p) = some a.length := by
+  obtain ⟨i, hi, hle⟩ := indexOf_occ p [] a
+  rw [List.append_nil] at hi
+  by_cases hlt : i < a.length
+  · exfalso
+    have e : a ++ p = (a ++ p.dropLast) ++ [p.getLast hp] := by
+      rw [List.append_assoc, List.dropLast_concat_getLast]
+    rw [e] at hi
+    have hpl : p.length > 0 := List.length_pos_iff.mpr hp
+    have := indexOf_of_append p _ _ i hi (by simp; omega)
+    rw [h] at this; cases this
+  · have : i = a.length := by omega
+    rw [hi, this]
+
+theorem indexOf_char_none_iff (c : Char) (s : Str) : indexOf [c] s = none ↔ c ∉ s := by
+  constructor
+  · intro h hm
+    obtain ⟨a, r, e⟩ := List.append_of_mem hm
+    obtain ⟨i, hi, _⟩ := indexOf_occ [c] r a
+    rw [e] at h
+    simp only [List.append_assoc, List.singleton_append] at hi
+    rw [h] at hi; cases hi
+  · intro h
+    cases hi : indexOf [c] s with
+    | none => rfl
+    | some i =>
+      obtain ⟨a, r, e, _⟩ := indexOf_split [c] s i hi
+      exact absurd (by rw [e]; simp) h
+
+theorem indexOf_char_first (c : Char) (a r : Str) (h : c ∉ a) :
+    indexOf [c] (a ++ c :: r) = some a.length := by
+  have h1 : indexOf [c] (a ++ [c]) = some a.length := by
+    apply indexOf_first [c] a (by simp)
+    simpa using (indexOf_char_none_iff c a).mpr h
+  have := indexOf_append_left [c] r _ _ h1
+  simpa using this
+
+
+/-! ## `splitSubPath` -/
+
+/-- the offset just after the first `://`, or 0 -/
+def schemeOffset (pre : Str) : Nat :=
+  match indexOf [':', '/', '/'] pre with
+  | some i => i + 3
+  | none => 0
+
+/-- `splitSubPath` on the part of the address before the query string -/
+def splitPre (pre : Str) : Str × Str :=
+  match indexOf ['/', '/'] (pre.drop (schemeOffset pre)) with
+  | none => (pre, [])
+  | some i => (pre.take (i + schemeOffset pre), pre.drop (i + schemeOffset pre + 2))
+
+/-- every string is a `?`-free part followed by nothing or by a query string -/
+theorem query_decomp (s : Str) : ∃ pre qs, s = pre ++ qs ∧ '?' ∉ pre ∧ (qs = [] ∨ ∃ t, qs = '?' :: t) := by
+  induction s with
+  | nil => exact ⟨[], [], rfl, by simp, Or.inl rfl⟩
+  | cons x xs ih =>
+    by_cases hx : x = '?'
+    · exact ⟨[], x :: xs, rfl, by simp, Or.inr ⟨xs, by rw [hx]⟩⟩
+    · obtain ⟨pre, qs, e, hp, hq⟩ := ih
+      refine ⟨x :: pre, qs, by simp [e], ?_, hq⟩
+      intro hm
+      rcases List.mem_cons.mp hm with h | h
+      · exact hx h.symm
+      · exact hp h
+
+def splitWith (src pre : Str) : Str × Str :=
+  match indexOf ['/', '/'] (pre.drop (schemeOffset pre)) with
+  | none => (src, [])
+  | some i =>
+    match indexOf ['?'] (src.drop (i + schemeOffset pre + 2)) with
+    | some q => (src.take (i + schemeOffset pre) ++ (src.drop (i + schemeOffset pre + 2)).drop q,
+        (src.drop (i + schemeOffset pre + 2)).take q)
+    | none => (src.take (i + schemeOffset pre), src.drop (i + schemeOffset pre + 2))
+
+theorem splitSubPath_unfold (src : Str) :
+    splitSubPath src = splitWith src (src.take (match indexOf ['?'] src with
+      | some i => i
+      | none => src.length)) := rfl
+
+theorem splitSubPath_eq (pre qs : Str) (hpre : '?' ∉ pre) (hqs : qs = [] ∨ ∃ t, qs = '?' :: t) :
+    splitSubPath (pre ++ qs) = ((splitPre pre).1 ++ qs, (splitPre pre).2) := by
+  have htake : (pre ++ qs).take (match indexOf ['?'] (pre ++ qs) with
+      | some i => i
+      | none => (pre ++ qs).length) = pre := by
+    rcases hqs with rfl | ⟨t, rfl⟩
+    · rw [List.append_nil, (indexOf_char_none_iff '?' pre).mpr hpre]; simp
+    · rw [indexOf_char_first '?' pre t hpre]; simp
+  rw [splitSubPath_unfold, htake]
+  unfold splitWith splitPre
+  generalize schemeOffset pre = off
+  cases hi : indexOf ['/', '/'] (pre.drop off) with
+  | none => simp
+  | some i =>
+    simp only
+    have hb := indexOf_bound _ _ _ hi
+    simp only [List.length_drop, List.length_cons, List.length_nil] at hb
+    have hle : i + off + 2 ≤ pre.length := by omega
+    rw [List.take_append_of_le_length (by omega), List.drop_append_of_le_length hle]
+    have hnq : '?' ∉ pre.drop (i + off + 2) := fun hm => hpre (List.mem_of_mem_drop hm)
+    rcases hqs with rfl | ⟨t, rfl⟩
+    · rw [List.append_nil, (indexOf_char_none_iff '?' _).mpr hnq]; simp
+    · rw [indexOf_char_first '?' _ t hnq]; simp
+
+theorem schemeOffset_take (pre : Str) (n : Nat) (h : schemeOffset pre ≤ n) :
+    schemeOffset (pre.take n) = schemeOffset pre := by
+  unfold schemeOffset at *
+  cases hk : indexOf [':', '/', '/'] pre with
+  | none =>
+    have := indexOf_none_append [':', '/', '/'] (pre.take n) (pre.drop n) (by rw [List.take_append_drop]; exact hk)
+    rw [this]
+  | some k =>
+    rw [hk] at h
+    simp only at h
+    have hb := indexOf_bound _ _ _ hk
+    simp only [List.length_cons, List.length_nil] at hb
+    have := indexOf_of_append [':', '/', '/'] (pre.take n) (pre.drop n) k
+      (by rw [List.take_append_drop]; exact hk) (by simp [List.length_take]; omega)
+    rw [this]
+
+theorem splitPre_fixed (pre : Str) : splitPre (splitPre pre).1 = ((splitPre pre).1, []) := by
+  unfold splitPre
+  cases hi : indexOf ['/', '/'] (pre.drop (schemeOffset pre)) with
+  | none => simp only [hi]
+  | some i =>
+    simp only
+    rw [schemeOffset_take pre _ (Nat.le_add_left _ _), List.drop_take, Nat.add_sub_cancel]
+    have h0 := indexOf_take_none ['/', '/'] _ i (by simp) hi
+    simp only [List.length_cons, List.length_nil] at h0
+    have h1 : indexOf ['/', '/'] ((pre.drop (schemeOffset pre)).take i) = none := by
+      have e : (pre.drop (schemeOffset pre)).take (i + (0 + 1 + 1) - 1) =
+          (pre.drop (schemeOffset pre)).take i ++ ((pre.drop (schemeOffset pre)).drop i).take 1 := by
+        rw [show i + (0 + 1 + 1) - 1 = i + 1 by omega, List.take_add]
+      rw [e] at h0
+      exact indexOf_none_append _ _ _ h0
+    simp only [h1]
+
+theorem splitPre_idem (pre : Str) : (splitPre (splitPre pre).1).2 = [] := by
+  rw [splitPre_fixed]
+
+/-- joining two valid non-empty sub-paths with a slash gives a valid path -/
+theorem validPath_join (a b : Str) (ha : validPath a = true) (ha' : a ≠ dot)
+    (hb : validPath b = true) (hb' : b ≠ dot) : validPath (a ++ '/' :: b) = true := by
+  unfold validPath at *
+  simp only [ha', hb', decide_false, Bool.false_or, List.all_eq_true] at ha hb
+  simp only [Bool.or_eq_true, List.all_eq_true]
+  right
+  rw [splitOn_append]
+  intro x hx
+  rcases List.mem_append.mp hx with h | h
+  · exact ha x h
+  · exact hb x h
+
+/-! ## printing then splitting -/
+
+theorem schemeOffset_none (s : Str) (h : indexOf [':', '/', '/'] s = none) : schemeOffset s = 0 := by
+  unfold schemeOffset; rw [h]
+
+theorem schemeOffset_url (sch r : Str) (h : indexOf [':', '/', '/'] (sch ++ [':', '/']) = none) :
+    schemeOffset (sch ++ ':' :: '/' :: '/' :: r) = sch.length + 3 := by
+  have h1 := indexOf_first [':', '/', '/'] sch (by simp) (by simpa using h)
+  have h2 := indexOf_append_left _ r _ _ h1
+  unfold schemeOffset
+  simp only [List.append_assoc, List.cons_append, List.nil_append] at h2
+  rw [h2]
+
+theorem indexOf_ss_join (pk sub : Str) (h : indexOf ['/', '/'] (pk ++ ['/']) = none) :
+    indexOf ['/', '/'] (pk ++ '/' :: '/' :: sub) = some pk.length := by
+  have h1 := indexOf_first ['/', '/'] pk (by simp) (by simpa using h)
+  have h2 := indexOf_append_left _ sub _ _ h1
+  simpa using h2
+
+theorem no_scheme_of_no_ss (s : Str) (h : indexOf ['/', '/'] s = none) :
+    indexOf [':', '/', '/'] s = none := by
+  cases hi : indexOf [':', '/', '/'] s with
+  | none => rfl
+  | some i =>
+    exfalso
+    obtain ⟨a, r, e, _⟩ := indexOf_split _ s i hi
+    obtain ⟨k, hk, _⟩ := indexOf_occ ['/', '/'] r (a ++ [':'])
+    have : a ++ [':'] ++ ['/', '/'] ++ r = s := by rw [e]; simp
+    rw [this, h] at hk
+    cases hk
+
+theorem splitPre_join_plain (pkg sub : Str)
+    (hsch : indexOf [':', '/', '/'] (pkg ++ '/' :: '/' :: sub) = none)
+    (hss : indexOf ['/', '/'] (pkg ++ ['/']) = none) :
+    splitPre (pkg ++ '/' :: '/' :: sub) = (pkg, sub) := by
+  unfold splitPre
+  rw [schemeOffset_none _ hsch, List.drop_zero, indexOf_ss_join pkg sub hss]
+  simp
+
+theorem splitPre_join_url (sch rest sub : Str)
+    (hsch : indexOf [':', '/', '/'] (sch ++ [':', '/']) = none)
+    (hss : indexOf ['/', '/'] (rest ++ ['/']) = none) :
+    splitPre (sch ++ ':' :: '/' :: '/' :: (rest ++ '/' :: '/' :: sub)) =
+      (sch ++ ':' :: '/' :: '/' :: rest, sub) := by
+  unfold splitPre
+  rw [schemeOffset_url sch _ hsch]
+  have e : (sch ++ ':' :: '/' :: '/' :: (rest ++ '/' :: '/' :: sub)).drop (sch.length + 3) =
+      rest ++ '/' :: '/' :: sub := by
+    rw [show sch ++ ':' :: '/' :: '/' :: (rest ++ '/' :: '/' :: sub) =
+      (sch ++ [':', '/', '/']) ++ (rest ++ '/' :: '/' :: sub) by simp]
+    exact List.drop_left' (by simp)
+  rw [e, indexOf_ss_join rest sub hss]
+  simp only
+  have e1 : sch ++ ':' :: '/' :: '/' :: (rest ++ '/' :: '/' :: sub) =
+      (sch ++ ':' :: '/' :: '/' :: rest) ++ ('/' :: '/' :: sub) := by simp
+  have e2 : sch ++ ':' :: '/' :: '/' :: (rest ++ '/' :: '/' :: sub) =
+      (sch ++ ':' :: '/' :: '/' :: rest ++ ['/', '/']) ++ sub := by simp
+  congr 1
+  · rw [e1]; exact List.take_left' (by simp; omega)
+  · rw [e2]; exact List.drop_left' (by simp; omega)
+
+theorem splitPre_none_plain (pkg : Str) (hss : indexOf ['/', '/'] pkg = none) :
+    splitPre pkg = (pkg, []) := by
+  unfold splitPre
+  rw [schemeOffset_none _ (no_scheme_of_no_ss pkg hss), List.drop_zero, hss]
+
+theorem splitPre_none_url (sch rest : Str)
+    (hsch : indexOf [':', '/', '/'] (sch ++ [':', '/']) = none)
+    (hss : indexOf ['/', '/'] rest = none) :
+    splitPre (sch ++ ':' :: '/' :: '/' :: rest) = (sch ++ ':' :: '/' :: '/' :: rest, []) := by
+  unfold splitPre
+  rw [schemeOffset_url sch _ hsch]
+  have e : (sch ++ ':' :: '/' :: '/' :: rest).drop (sch.length + 3) = rest := by
+    rw [show sch ++ ':' :: '/' :: '/' :: rest = (sch ++ [':', '/', '/']) ++ rest by simp]
+    exact List.drop_left' (by simp)
+  rw [e, hss]
+
 end Slug
